@@ -42,7 +42,7 @@ def seg_models(inst, tier, fixed):
                            '(plus small values), MTU - envelope in -3..%d and around the head-width boundaries: '
                            'per-piece size lemma and whole cuts of up to 6 pieces' % (w, 11 if tier == 'quick' else 41))]
     dev = 'off_by_one' if inst == 'btpu' else 'no_worst_case_head'
-    runs.append(seg_model('seg-%s-dev' % inst, inst, {40} | win(256, 2), set(range(0, 15)) | win(259, 3), fixed,
+    runs.append(seg_model('seg-%s-dev' % inst, inst, {40, 300, 600} | win(256, 2), set(range(0, 45)) | win(259, 3), fixed,
                           dev='{"%s"}' % dev, expect='violation', note='a budget rule without the worst-case head must be caught'))
     return runs
 
